@@ -281,7 +281,7 @@ HGet == /\ HCan /\ hist # <<>> /\ hist[Len(hist)].op = "set"                    
 \* module function: "_ezi_run_gauleg(npts): if _EZI_XXi.size != npts: recompute" (deviating cache: only when empty)
 HRefresh(cur, want) == IF FixedCache THEN want ELSE IF cur = 0 THEN want ELSE cur
 HFCall == /\ HCan
-          /\ \E q \in {"Ezinv_integral", "V"}, n \in HNs, vn \in (IF q = "V" THEN HVns ELSE {0}) :
+          /\ \E q \in {"Ezinv_integral", "V"}, n \in HNs : \E vn \in (IF q = "V" THEN HVns ELSE {0}) :
                 LET e  == HEv("fcall", 0, q, n, vn)
                     ez == HRefresh(mech.calls[1], PNpts(n))
                     vi == IF q = "V" THEN HRefresh(mech.calls[2], PVnpts(vn)) ELSE mech.calls[2]
